@@ -44,7 +44,7 @@ def write_mc_cfg(path, wal, mutant):
 
 def model_check(ctx, d):
     r = lib.tlc(ctx, d, "TxnAtomic", "MC_TxnAtomic.cfg", workers=4, timeout=600)
-    lib.require_coverage(r, ["PStart", "PBegin", "PStmt", "PFault", "PCommit", "PFaultAfterCommit", "PErr", "PRetOk",
+    lib.require_coverage(r, ["PStart", "PBegin", "PStmt", "PFault", "PCommit", "PErr", "PRetOk",
                              "PRetErr", "PRBegin", "PRRead", "PREnd", "Crash"])
     lib.account_tlc(ctx, r)
     write_mc_cfg(os.path.join(d, "MC_rollback.cfg"), False, "none")
